@@ -23,7 +23,7 @@ from typing import Any, Callable, Optional, Sequence
 import sympy as sp
 import z3
 
-from .core import Ob, PROVED, REFUTED, UNKNOWN, FAULT, seed
+from .core import Ob, PROVED, REFUTED, UNKNOWN, FAULT, seed, die_with_parent
 from .smt import prove as smt_prove, check_sat
 from .sym2smt import Tr, Unsupported, nf_is_zero
 
@@ -501,7 +501,7 @@ def run_laws(report, modname: str, laws: Sequence[Law], pid: str, jobs: Optional
     if len(tasks) < 8 or jobs <= 1:
         res = [_worker(t) for t in tasks]
     else:
-        with ProcessPoolExecutor(max_workers=jobs) as ex:
+        with ProcessPoolExecutor(max_workers=jobs, initializer=die_with_parent) as ex:
             res = list(ex.map(_worker, tasks, chunksize=max(1, len(tasks) // (jobs * 8))))
     report.extend(res)
     if any(l.degenerate for l in laws):
